@@ -823,7 +823,7 @@ fn main() {
     };
     if !is_replay {
         let mut rng = ctx.rng();
-        for _ in 0..ctx.size(1_500, 15_000) {
+        for _ in 0..ctx.size(1_000, 10_000) {
             let input = gen_diff(&mut rng);
             let (o, derived) = run_case_full(&input);
             ctx.record(&input, o);
